@@ -606,6 +606,80 @@ func hsFlights(c *Ctx, v *VFile) error {
 			v.NListList("gen_auth_tests_"+srv.name+"_"+fn, rows)
 		}
 	}
+
+	// ---- processCertsFromClient: which certificate's key is returned for checking the CertificateVerify ----------
+	// the one statement that assigns pub: "switch key := certs[<index>].PublicKey.(type) { case ...: pub = key }", directly in the
+	// function body (not in a loop); emitted: the index
+	v.Raw("\n(* processCertsFromClient: the index of the certificate whose public key is returned (switch key := certs[i].PublicKey.(type)) *)\n")
+	for _, srv := range []struct{ name, recv string }{{"tls", "serverHandshakeState"}, {"gm", "serverHandshakeStateGM"}} {
+		f, ok := p.Funcs[srv.recv+".processCertsFromClient"]
+		if !ok {
+			return fmt.Errorf("function %s.processCertsFromClient not found", srv.recv)
+		}
+		var idx *big.Int
+		n := 0
+		for _, st := range f.Body.List {
+			ts, ok := st.(*ast.TypeSwitchStmt)
+			if !ok {
+				continue
+			}
+			as, ok := ts.Assign.(*ast.AssignStmt)
+			if !ok || len(as.Rhs) != 1 {
+				continue
+			}
+			ta, ok := as.Rhs[0].(*ast.TypeAssertExpr)
+			if !ok {
+				continue
+			}
+			sel, ok := ta.X.(*ast.SelectorExpr)
+			if !ok || sel.Sel.Name != "PublicKey" {
+				continue
+			}
+			ix, ok := sel.X.(*ast.IndexExpr)
+			if !ok || !isIdent(ix.X, "certs") {
+				continue
+			}
+			x, err := p.Eval(ix.Index)
+			if err != nil {
+				continue
+			}
+			idx = x
+			n++
+		}
+		// every assignment to pub must sit inside that switch
+		assigns := 0
+		ast.Inspect(f, func(nd ast.Node) bool {
+			if as, ok := nd.(*ast.AssignStmt); ok {
+				for _, l := range as.Lhs {
+					if isIdent(l, "pub") {
+						assigns++
+					}
+				}
+			}
+			return true
+		})
+		loops := 0
+		ast.Inspect(f, func(nd ast.Node) bool {
+			switch lp := nd.(type) {
+			case *ast.RangeStmt:
+				ast.Inspect(lp.Body, func(m ast.Node) bool {
+					if as, ok := m.(*ast.AssignStmt); ok {
+						for _, l := range as.Lhs {
+							if isIdent(l, "pub") {
+								loops++
+							}
+						}
+					}
+					return true
+				})
+			}
+			return true
+		})
+		if n != 1 || idx == nil || assigns != 1 || loops != 0 {
+			return fmt.Errorf("%s.processCertsFromClient: the public key is not taken by a single \"switch key := certs[i].PublicKey.(type)\" in the function body (switches %d, assignments to pub %d, of them in loops %d)", srv.recv, n, assigns, loops)
+		}
+		v.N("gen_client_cert_key_index_"+srv.name, idx)
+	}
 	return nil
 }
 
